@@ -7,13 +7,18 @@ package main
 import (
 	"fmt"
 	"math/rand"
+	"os"
+	"sync"
+	"sync/atomic"
 	"time"
 
 	sentinel "github.com/alibaba/sentinel-golang/api"
 	"github.com/alibaba/sentinel-golang/core/base"
 	"github.com/alibaba/sentinel-golang/core/hotspot"
 
+	"verif/coop"
 	"verif/sx"
+	"verif/vatomic"
 	"verif/vclock"
 	"verif/vk"
 )
@@ -427,8 +432,227 @@ func runCase(idx int, c *caseDesc) {
 	}
 }
 
+// parRound: real goroutines under the race detector, frozen clock. The envelope of the statement does not depend
+// on the interleaving: inside the first duration after a value was first seen at most threshold+burst tokens may
+// be admitted for it, however many callers race on its first sighting.
+func parRound(r int, rng *rand.Rand) {
+	caseNo++
+	res := fmt.Sprintf("c05par-%d", caseNo)
+	thr, burst := int64(1+rng.Intn(3)), int64(rng.Intn(2))
+	const G, V, tries = 16, 200, 3
+	spec := map[interface{}]int64{}
+	for v := 0; v < V; v += 7 {
+		spec[v] = thr + 1
+	}
+	hotspot.LoadRulesOfResource(res, []*hotspot.Rule{{ID: res, Resource: res, MetricType: hotspot.QPS, ControlBehavior: hotspot.Reject, ParamIndex: 0,
+		Threshold: thr, BurstCount: burst, DurationInSec: 1, SpecificItems: spec}})
+	defer hotspot.ClearRulesOfResource(res)
+	var admitted [V]int64
+	var arrived [V]int32
+	var gate [V]chan struct{}
+	for v := range gate {
+		gate[v] = make(chan struct{})
+	}
+	var wg sync.WaitGroup
+	for g := 0; g < G; g++ {
+		wg.Add(1)
+		go func() {
+			defer wg.Done()
+			for v := 0; v < V; v++ {
+				// all callers meet at every value so that its first sighting is contended
+				if atomic.AddInt32(&arrived[v], 1) == G {
+					close(gate[v])
+				} else {
+					<-gate[v]
+				}
+				for k := 0; k < tries; k++ {
+					e, b := sentinel.Entry(res, sentinel.WithArgs(v))
+					if b == nil {
+						atomic.AddInt64(&admitted[v], 1)
+						e.Exit()
+					}
+				}
+			}
+		}()
+	}
+	wg.Wait()
+	for v := 0; v < V; v++ {
+		limit := thr + burst
+		if t, ok := spec[v]; ok {
+			limit = t + burst
+		}
+		if admitted[v] > limit {
+			run.Violation("C05/par:reject-envelope:burst-bound", fmt.Sprintf("round %d: %d tokens admitted for value %d within its first duration (frozen clock), threshold+burst = %d, %d concurrent callers", r, admitted[v], v, limit, G), map[string]interface{}{"round": r, "thr": thr, "burst": burst, "value": v})
+			break
+		}
+		if admitted[v] == 0 {
+			run.Violation("C05/par:first-sighting-not-granted", fmt.Sprintf("round %d: no request for the never-seen value %d was admitted (threshold %d)", r, v, limit-burst), map[string]interface{}{"round": r, "thr": thr, "burst": burst, "value": v})
+			break
+		}
+		run.Count("values_checked", 1)
+	}
+	run.Distinct(vk.Hash("par", r, thr, burst))
+	if r < 2 {
+		run.Sample(map[string]interface{}{"round": r, "threshold": thr, "burst": burst, "goroutines": G, "values": V, "tries_each": tries})
+	}
+}
+
+// ---- cooperative engine: traffic_shaping.go compiled against the shimmed atomics and the parameter caches against
+// the shimmed locks; 2-3 callers race on the first sighting (or the remaining tokens) of one or two values with a
+// frozen clock. Whatever the interleaving, the tokens admitted for a value stay within threshold+burst.
+type coopReq struct {
+	Val   string `json:"val"`
+	Batch int64  `json:"batch"`
+}
+type coopCase struct {
+	Thr, Burst int64
+	Pre        int         `json:"pre"` // single-token requests for "x" made sequentially before the race
+	Workers    [][]coopReq `json:"workers"`
+	Strat      string      `json:"strategy"`
+	Choices    []byte      `json:"choices,omitempty"`
+}
+
+func coopEngine() {
+	run = vk.Start("C05", "coop")
+	defer run.Finish()
+	run.Rule("schedule = (reject-mode rule threshold 1-3 burst 0-2, 0-2 sequential warm-up requests, 2-3 callers x 1-3 requests of batch 1-2 for values x / y, choice sequence at every atomic access of traffic_shaping.go and every lock acquisition of the parameter caches) under random walk, PCT d<=3 and bounded DFS, frozen clock; tokens admitted per value <= threshold+burst, every caller terminates; distinct = distinct (case, interleaving).")
+	run.Assume("frozen clock: all requests lie in the first duration after the value was first seen", "Go atomics sequentially consistent; lock acquisitions are the only scheduling points inside the caches")
+	vclock.New(1900000000000)
+	{
+		c0 := atomic.LoadUint64(&vatomic.Count)
+		hotspot.LoadRulesOfResource("c05-calib", []*hotspot.Rule{{ID: "c", Resource: "c05-calib", MetricType: hotspot.QPS, ControlBehavior: hotspot.Reject, ParamIndex: 0, Threshold: 1, DurationInSec: 1}})
+		for k := 0; k < 2; k++ {
+			if e, b := sentinel.Entry("c05-calib", sentinel.WithArgs("x")); b == nil {
+				e.Exit()
+			}
+		}
+		hotspot.ClearRulesOfResource("c05-calib")
+		if atomic.LoadUint64(&vatomic.Count) == c0 {
+			run.Inconclusive("observability: requests through a hot-parameter QPS rule executed no shimmed atomic access (was the controller moved out of core/hotspot/traffic_shaping.go?) - no interleaving can be explored")
+			return
+		}
+	}
+	gen := func(rng *rand.Rand) *coopCase {
+		c := &coopCase{Thr: int64(1 + rng.Intn(3)), Burst: int64(rng.Intn(3)), Pre: rng.Intn(3)}
+		for w, k := 0, 2+rng.Intn(2); w < k; w++ {
+			var rs []coopReq
+			for i, n := 0, 1+rng.Intn(3); i < n; i++ {
+				rs = append(rs, coopReq{Val: vk.PickS(rng, "x", "x", "x", "y"), Batch: int64(vk.PickI(rng, 1, 1, 2))})
+			}
+			c.Workers = append(c.Workers, rs)
+		}
+		return c
+	}
+	do := func(c *coopCase, ch coop.Chooser) {
+		caseNo++
+		res := fmt.Sprintf("c05co-%d", caseNo)
+		hotspot.LoadRulesOfResource(res, []*hotspot.Rule{{ID: res, Resource: res, MetricType: hotspot.QPS, ControlBehavior: hotspot.Reject, ParamIndex: 0,
+			Threshold: c.Thr, BurstCount: c.Burst, DurationInSec: 1}})
+		defer hotspot.ClearRulesOfResource(res)
+		admitted := map[string]int64{}
+		for i := 0; i < c.Pre; i++ {
+			if e, b := sentinel.Entry(res, sentinel.WithArgs("x")); b == nil {
+				admitted["x"]++
+				e.Exit()
+			}
+		}
+		fns := make([]func(), len(c.Workers))
+		for w := range c.Workers {
+			w := w
+			fns[w] = func() {
+				for _, r := range c.Workers[w] {
+					e, b := sentinel.Entry(res, sentinel.WithArgs(r.Val), sentinel.WithBatchCount(uint32(r.Batch)))
+					if b == nil {
+						admitted[r.Val] += r.Batch
+						e.Exit()
+					}
+				}
+			}
+		}
+		r := coop.Run(ch, coop.Options{Adversarial: 1500, FairTail: 20000}, fns...)
+		if r.Stuck {
+			run.Inconclusive("scheduler: a worker did not reach a yield point (wall-clock guard)")
+			return
+		}
+		c.Choices = r.Choices
+		if len(r.NonTerminated) > 0 {
+			run.Violation("C05/coop:non-termination", fmt.Sprintf("callers %v did not return within 20000 fair steps", r.NonTerminated), c)
+			return
+		}
+		for w, p := range r.Panics {
+			run.Violation("C05/coop:panic", fmt.Sprintf("caller %d panicked: %s", w, p), c)
+			return
+		}
+		for v, n := range admitted {
+			if n > c.Thr+c.Burst {
+				run.Violation("C05/coop:reject-envelope:burst-bound", fmt.Sprintf("%d tokens admitted for value %q inside one duration (frozen clock), threshold+burst = %d", n, v, c.Thr+c.Burst), c)
+				return
+			}
+		}
+		run.Distinct(vk.Hash(c.Thr, c.Burst, c.Pre, c.Workers, string(r.Choices)))
+	}
+	n := run.N(6000, 400000)
+	for i := 0; i < n; i++ {
+		if run.Skip(i) {
+			continue
+		}
+		rng := run.Rand(i)
+		c := gen(rng)
+		var ch coop.Chooser
+		if i%4 == 0 {
+			c.Strat = "random"
+			ch = &coop.Random{R: rng}
+		} else {
+			d := 1 + rng.Intn(3)
+			c.Strat = fmt.Sprintf("pct-d%d", d)
+			ch = coop.NewPCT(rng, len(c.Workers), d, 40)
+		}
+		run.Eval(i)
+		if i < 2 {
+			run.Sample(c)
+		}
+		do(c, ch)
+	}
+	if !run.Replaying() {
+		for j, nd := 0, run.N(4, 60); j < nd; j++ {
+			c := gen(run.Rand(5_000_000 + j))
+			c.Workers = c.Workers[:2]
+			c.Strat = "dfs-2-preemptions"
+			d := &coop.DFS{MaxPreempt: 2}
+			cnt := 0
+			for d.Next() && cnt < 20000 {
+				cnt++
+				run.Eval(5_000_000 + j)
+				cc := *c
+				do(&cc, d)
+			}
+			run.Count("dfs_schedules", int64(cnt))
+		}
+	}
+}
+
 func main() {
 	sx.Quiet()
+	if os.Getenv("VERIF_MODE") == "coop" {
+		coopEngine()
+		return
+	}
+	if os.Getenv("VERIF_MODE") == "par" {
+		run = vk.Start("C05", "par")
+		defer run.Finish()
+		run.Rule("round = 16 goroutines meeting at each of 200 never-seen values (barrier) and each trying 3 single-token requests on a reject-mode rule (threshold 1-3, burst 0-1, some specific items) with a frozen virtual clock, race detector on; per value the admitted tokens must be within threshold+burst and at least one; distinct = rounds.")
+		run.Assume("frozen clock: every request lies in the first duration after its value was first seen")
+		vclock.New(1900000000000)
+		n := run.N(12, 300)
+		for i := 0; i < n; i++ {
+			if run.Skip(i) {
+				continue
+			}
+			run.Eval(i)
+			parRound(i, run.Rand(i))
+		}
+		return
+	}
 	run = vk.Start("C05", "seq")
 	defer run.Finish()
 	run.Rule("case = one hot-param QPS rule (reject or throttling; threshold 0-50, burst 0-10, duration 1-5 s, queueing 0-3000 ms, index 0/2/-1/-3 or attachment key, specific items, optional capacity possibly below the 1-12 live values) + 30-150 arrivals (value or no selected argument, batch, hostile deltas around the duration); envelopes E1/E2/E3, spacing and queueing bound per value, arg-less never limited, projection equality on up to 3 values; distinct = distinct (decision trace, rule) with a pass and a block.")
